@@ -155,7 +155,9 @@ BUILT = {
          "sample and a (treatment, dose) occur only in rows the hold-out can take); real histories (TLC-explored and random) "
          "are validated by TraceLifecycle(Focus=C03): after every operation every screen and file carries the prepared "
          "mappings, its ids are the lookups of its own names, sizes never shrink and a fixed posterior sample predicts "
-         "bit-identically for the same experiment on every stage.",
+         "bit-identically for the same experiment on every stage. At study size (a prepared screen of 6,500 two-drug experiments: both "
+         "hold-outs, mask / unmask, save / load, three reveals) the clause is evaluated by the harness, because the code has a path behind "
+         "a size threshold that TLC's scope cannot reach.",
          "the defect F1 found by this check was repaired in /repo (fix: commit 556351c).",
          "TLA+ state machine + TLC; spec->code replay; code->spec trace validation",
          "5/C03"),
